@@ -358,7 +358,23 @@ def gen_scalar(rng, n, tier):
     big = (BLS_X - 1).to_bytes(8, "little") * 4
     L.append("xrand %s" % (big + bytes(rng.getrandbits(8) for _ in range(96))).hex())
     L.append("xrand -")
+    for st in xrand_boundary_streams(rng):
+        L.append("xrand %s" % st.hex())
     return L
+
+
+def xdigit_stream(y, rng, reject_first=False, tail=96):
+    """byte stream that makes PowersOfX::random draw exactly the base-|x| digits of y (least significant first)"""
+    out = b""
+    if reject_first: out += rng.randrange(BLS_X, 1 << 64).to_bytes(8, "little")
+    for i in range(4):
+        out += ((y // BLS_X ** i) % BLS_X).to_bytes(8, "little")
+    return out + bytes(rng.getrandbits(8) for _ in range(tail))
+
+def xrand_boundary_streams(rng):
+    """draws that land exactly on / next to the group order (the rejection test `y < r`), and on digit boundaries"""
+    ys = [R, R - 1, R + 1, 0, 1, R - BLS_X, R + BLS_X, BLS_X ** 3, BLS_X ** 3 - 1, (R // BLS_X ** 3) * BLS_X ** 3, 2 * R % BLS_X ** 4]
+    return [xdigit_stream(y, rng) for y in ys] + [xdigit_stream(R, rng, reject_first=True), xdigit_stream(R - 1, rng, reject_first=True)]
 
 def gen_gt(rng, n, tier):
     L = []
@@ -381,6 +397,9 @@ def gen_gt(rng, n, tier):
         stream += bytes(rng.getrandbits(8) for _ in range(64))
         L.append("gt_rand %s %s" % (hx(rng.randrange(1, R), 256), stream.hex()))
         L.append("xrand %s" % stream.hex())
+    for st in xrand_boundary_streams(rng):
+        L.append("gt_rand %s %s" % (hx(rng.randrange(1, R), 256), st.hex()))
+        L.append("xrand %s" % st.hex())
     return L
 
 def gen_pairing(rng, n, tier):
